@@ -231,5 +231,6 @@ func runC43(c *Ctx) []Obligation {
 			"an unstaking application that was exported is imported (its tokens are still in the pool)"),
 		c.nilGuardedReceiver(P, "auth.validate-tolerates-nil-pubkey", "x/auth/types.ValidateGenesis", `^invoke x/auth/exported\.Account\.GetPubKey\(`, "exported accounts may carry no public key"),
 	)
+	out = append(out, c.decodeTargetsFresh(P)...)
 	return out
 }
